@@ -214,8 +214,37 @@ def oracle_case(case):
         prev = d
 
 
+FINDING_POST_CYCLE = "runner-post-cycle:thread-Faulted-without-fault-decision"
+
+
+def probe_post_cycle():
+    """Replay the witness of finding C08-runner-post-cycle on the real ResourceRunner.
+    Returns (reproduces, line)."""
+    import vlib  # noqa: PLC0415
+    rc, log = vlib.sh([vlib.VHARNESS, "c08", "--probe", "postcycle"], cwd=vlib.WORK, timeout=120)
+    line = next((l for l in log.splitlines() if l.startswith("probe postcycle ")), None)
+    if rc != 0 or line is None:
+        return None, log[-400:]
+    d = dict(tok.split("=", 1) for tok in line.split()[2:])
+    evs = [] if d["ev"] == "-" else d["ev"].split(",")
+    delivered = any(ev.startswith("F:") for ev in evs) and any(ev.startswith("w0:a5") for ev in evs)
+    return (d["state"] == "Faulted" and not delivered), line
+
+
 def extra(ctx):
     failures, fails = [], []
+    known = []
+    import vlib  # noqa: PLC0415
+    repro, line = probe_post_cycle()
+    listed = [f for f in vlib.known_findings("C08") if f.get("match") == FINDING_POST_CYCLE]
+    if repro is None:
+        fails.append("post-cycle probe did not run: " + str(line))
+    elif repro and listed:
+        known.append(listed[0]["what"])
+    elif repro:
+        failures.append({"case": "probe-postcycle", "op": "ResourceRunner with a failing simulation coupling",
+                         "impl": line, "clause": "thread ended Faulted under safe_halt without latching the fault "
+                         "or delivering the safe image", "seed": ctx["seed"], "tier": ctx["tier"]})
     for c in ctx["cases"]:
         for k, op, impl, clause in oracle_case(c):
             failures.append({"case": c.n, "op_index": k, "op": op, "impl": impl, "clause": clause,
@@ -231,14 +260,20 @@ def extra(ctx):
         missing = [r for r in rows if not stats.get(r)]
         if missing:
             fails.append("generator coverage hole (tie too weak to trust): no case exercised " + ", ".join(missing))
-    return {"oracle_failures": failures, "failures": fails,
-            "coverage": {"oracle": "property clauses evaluated on the impl lines of every case (checks/c08.py oracle_case)",
+    return {"oracle_failures": failures, "failures": fails, "known": known,
+            "coverage": {"post_cycle_probe": line,
+                         "oracle": "property clauses evaluated on the impl lines of every case (checks/c08.py oracle_case)",
                          "policy_rows_exercised": {r: stats.get(r, 0) for r in rows}}}
 
 
 def replay(obj):
     """./check.py C08 --replay replays/C08-….json : re-run exactly that case (model diff + oracle)."""
     import check  # noqa: PLC0415
+    if obj.get("case") == "probe-postcycle":
+        repro, line = probe_post_cycle()
+        print(line)
+        print("replay:", "still fails" if repro else "passes")
+        return 1 if repro else 0
     if "case" not in obj or "seed" not in obj:
         print(obj)
         print("this replay names a broken obligation, not an input; re-run the check itself")
